@@ -6,6 +6,7 @@ set like a caller would set them, and the parser's `open` / `json` names are sha
 parser module's namespace by instrumented stand-ins that record the reads and decode attempts."""
 import vclock
 vclock.install()
+import contextlib  # noqa: E402
 import io  # noqa: E402
 import json, zlib  # noqa: E402
 import os  # noqa: E402
@@ -120,8 +121,21 @@ def run_ev(toks) -> str:
             os.environ["FORCE_COLOR"] = "1"
         else:
             os.environ.pop("FORCE_COLOR", None)
-        L.VERBOSITY = int(gv)
-        L.NESTING = -1 if nest == "-" else int(nest)
+        # the verbosity / nesting of the case are put in force directly, or through the documented context manager
+        # `with_verbosity(v, nesting=n, only_decrease=…)` entered from other settings — chosen by the case line
+        want_v, want_n = int(gv), (-1 if nest == "-" else int(nest))
+        how = zlib.crc32((" ".join(toks)).encode()) % 4
+        L.VERBOSITY, L.NESTING = want_v, want_n
+        scope = contextlib.ExitStack()
+        if how == 1:        # any verbosity is accepted
+            L.VERBOSITY, L.NESTING = (want_v + 2) % 5, want_n + 3
+            scope.enter_context(L.with_verbosity(L.Verbosity(want_v), nesting=want_n))
+        elif how == 2 and want_v < 4:      # a decrease, accepted
+            L.VERBOSITY, L.NESTING = 4, want_n + 1
+            scope.enter_context(L.with_verbosity(L.Verbosity(want_v), nesting=want_n, only_decrease=True))
+        elif how == 3:      # not a decrease: the verbosity request is ignored, the nesting is still applied
+            L.VERBOSITY, L.NESTING = want_v, want_n + 2
+            scope.enter_context(L.with_verbosity(L.Verbosity(min(4, want_v + 1)), nesting=want_n, only_decrease=True))
         L.IS_UNICODE = uni == "1"
         L.IS_COLOR = color == "1"
         L.LOGFILE = logf
@@ -167,6 +181,7 @@ def run_ev(toks) -> str:
             text = logf.getvalue() if logf is not None else ""
         finally:
             # an event that is still open is closed silently (EventIO.__del__ would do it later)
+            scope.close()
             L.VERBOSITY = -1
             L.LOGFILE = None
             if not ev.closed:
